@@ -17,6 +17,7 @@ import Hpl.Model.Rewrite.Refactor
 import Hpl.Model.Rewrite.Simplify
 import Hpl.Model.Parser
 import Hpl.Spec.PrintToks
+import Hpl.Spec.PrintToksProp
 /-! Line-protocol driver: one S-expression request per line on stdin, one canonical answer per line on stdout. -/
 open Hpl
 open Hpl.Codec
@@ -280,6 +281,22 @@ def handle (req : Sexp) : Sexp :=
         | .ok r => match build r with
           | .ok e => check r (lexExpr e.print)
           | .error _ => errS "build"
+    else if entry == "property" then
+      -- property level (Props/C06c parse_property_toks_roundtrip): `fmt` is the spelling of the time bound in this very text
+      match lex text with
+      | .error _ => errS "syntax"
+      | .ok ts => match parsePropertyToks ts with
+        | .error _ => errS "syntax"
+        | .ok r =>
+          let numTok : String := match ts.find? (fun t => t.kind == TokKind.num && (ts.any (fun w => isKw w "within"))) with
+            | some _ => (match (ts.dropWhile (fun t => !isKw t "within")) with | _ :: n :: _ => n.text | _ => "0")
+            | none => "0"
+          let fmt : Rat → String := fun _ => numTok
+          let toksEq := ts.map key == (r.toks fmt).map key
+          let back := match parsePropertyToks (r.toks fmt), buildProperty r with
+            | .ok r', .ok p => (match buildProperty r' with | .ok p' => p == p' | .error _ => false)
+            | _, _ => false
+          okS [Sexp.ofBool (r.printable fmt), Sexp.ofBool toksEq, Sexp.ofBool back]
     else errS "protocol" "rtcheck entry"
   | .list [.atom "printany", x] =>
     let fmt : Rat → String := fun q => match floatRepr q with | some s => s | none => "<float>"
